@@ -82,8 +82,17 @@ def mc_and_run(ctx, comp, family, depth, mode, compress, kd, totals):
     ctx.stage("run", comp=comp, family=family, programs=d.get("programs"), events=d.get("events"), hangs=d.get("hangs"), wall_s=d["wall_s"])
     if d.get("programs") != n:
         raise lib.ToolError(f"driver executed {d.get('programs')} of {n} programs")
+    count_ops(ctx, d)
     _, dn = lib.count_distinct(progs)
     return progs, trace, n, dn
+
+
+def count_ops(ctx, info):
+    """operations the driver executed, by kind (counted by the driver, not copied from TLC)"""
+    oc = ctx.cov.setdefault("ops_executed", {})
+    for k, v in info.items():
+        if k.startswith("n_") and isinstance(v, int):
+            oc[k[2:]] = oc.get(k[2:], 0) + v
 
 
 def model_refutations(ctx):
@@ -186,11 +195,13 @@ def run(ctx):
     total_programs = 0
     distinct = 0
     did_selftest = False
+    sampled = set()
     for comp, family, depth, mode, compress in plan:
         progs, trace, n, dn = mc_and_run(ctx, comp, family, depth, mode, compress, kd, totals)
         total_programs += n
         distinct += dn
-        if len(ctx.cov["samples"]) < 3 and comp in ("dyn", "inst", "arch")[len(ctx.cov["samples"]):][:1]:
+        if comp not in sampled:
+            sampled.add(comp)
             ls = lib.read_lines(trace)
             s, e = lib.run_of_line(ls, min(len(ls), 3000))
             ctx.cov["samples"].append({"source": f"MC_Storage {comp}/{family}", "trace": [json.loads(x) for x in ls[s:e]]})
@@ -205,6 +216,7 @@ def run(ctx):
     dump = ctx.path("prog_random.ndjson")
     d = lib.run_driver("drv_storage", ["--random", nrand, "--len", rlen, "--out", trace, "--dump-programs", dump], env={"VERIF_SEED": ctx.seed})
     ctx.stage("run", source="random", programs=d.get("programs"), events=d.get("events"), hangs=d.get("hangs"), wall_s=d["wall_s"])
+    count_ops(ctx, d)
     _, dn = lib.count_distinct(dump)
     judge_trace(ctx, trace, f"random seed={ctx.seed}", kd, totals)
     total_programs += nrand
@@ -219,8 +231,10 @@ def run(ctx):
         judge_trace(ctx, trace, "64 MiB remap threshold", kd, totals)
         total_programs += len(bigs)
         distinct += len(bigs)
-    if totals["exact_reads"] == 0 or totals["ok_writes"] == 0:
-        raise lib.ToolError(f"vacuous run: {totals}")
+    never = [k for k in ("write", "read", "remove", "flush", "flushb", "reopen", "compact") if not ctx.cov.get("ops_executed", {}).get(k)]
+    ctx.cov["actions_never_taken"] = never
+    if totals["exact_reads"] == 0 or totals["ok_writes"] == 0 or never:
+        raise lib.ToolError(f"vacuous run: {totals}, operations never executed: {never}")
     ctx.cov["traces_validated_against_impl"] = total_programs
     ctx.cov["evaluations"] = totals["events"]
     ctx.cov["distinct_nontrivial"] = distinct
